@@ -58,9 +58,31 @@
               for every libm, and hence no decode ever panics; the Bézier
               subdivision fuel suffices in IEEE arithmetic for n control
               points within +-2^E when n * 2^E <= 2^22
-              ([C01_T01g_ieee_bounded]).  OPEN: the same for the remaining
-              segments a file can contain (more control points, far from
-              the origin) (T01g, partial by design; proved for reals and
+              ([C01_T01g_ieee_bounded]).  PROVED at the level of whole
+              files: the parser only ever stores control points that are
+              finite and within +-2^18 of the slider head
+              ([C01_parsed_control_points_bounded], an invariant of the
+              parser state over all line sequences, kept by the finishing
+              conversion), and the curve hands the Bezier routine one
+              segment (typed point to next typed point) at a time
+              ([C01_T01g_curve_bounded_segments]); so every list of lines
+              -- and every byte stream / reader state delivering them --
+              in which each SEGMENT of each slider has at most 16 control
+              points, or n control points with the slider inside +-2^E of
+              its head and n * 2^E <= 2^22, decodes to a VALUE with the
+              pinned fuels, given an atan2 with values in [-PI, PI]:
+              never OutOfFuel, never Panic, never Err
+              ([C01_decode_terminates_segments], [.._segments_graded];
+              whole-slider forms [C01_decode_terminates_bounded],
+              [.._graded]; as decidable conditions on the input lines
+              [C01_decode_terminates_segments_lines], [.._bounded_lines];
+              bytes: [C01_decode_bytes_terminates_segments[_lines]],
+              [C01_decode_bytes_terminates_bounded]; with the encoder:
+              [C01_decode_encode_terminates_segments[_lines]],
+              [C01_decode_encode_terminates_bounded]).  OPEN: the same for
+              the remaining sliders a file can contain: a segment of more
+              than 16 control points with some of them farther than 2^22 / n
+              from the head (T01g, partial by design; proved for reals and
               for the flat classes; REFUTED for unbounded coordinates,
               finding D25 -- public API only));
      LAYER 4  (re-encoding: see the section "LAYER 4" at the end of this file.
@@ -685,8 +707,20 @@ Proof. exact (conj BezierIEEEFinite.seg_fin_dump BezierIEEEFinite.seg_fin_finite
    most 3u, so D' <= D/4 + n u, fixed point 4nu/3 <= 3/16.
    ([C01_T01g_ieee_bounded_via_exact_child] is the first, weaker form, (n - 1)
    * 2^E <= 2^19, obtained by comparing with the exact child.)
-   REMAINS OPEN: segments with n * 2^E > 2^22 inside the parser's range (many
-   control points far from the origin).  The worst-case bound n u is linear
+   LIFTED TO WHOLE FILES (section "LAYERS (1+)2+3, hang, for whole files"
+   below): the premise "coordinates finite, |x| <= 2^18" of the full statement
+   IS proved of everything the parser stores
+   ([C01_parsed_control_points_bounded]); the curve calls the Bezier routine
+   on one segment at a time ([C01_T01g_curve_bounded_segments]); hence decoding
+   any file whose sliders have <= 16 control points per SEGMENT (or fit
+   max_seg_len * 2^E <= 2^22 with their own E) returns a value
+   ([C01_decode_terminates_segments], [.._segments_graded], [.._segments_lines],
+   [C01_decode_bytes_terminates_segments]; whole-slider forms
+   [C01_decode_terminates_bounded], [.._graded], [.._bounded_lines]).
+   REMAINS OPEN: segments with n * 2^E > 2^22 inside the parser's range (a
+   single segment of more than 16 control points, some of them far from the
+   slider head).
+   The worst-case bound n u is linear
    in n and exceeds the tolerance there; the true growth is logarithmic in n
    (the 4u increments have alternating signs that the next averaging step
    cancels), not mechanised; no such segment that fails to return was found
@@ -828,6 +862,461 @@ Theorem C01_T01g_curve_bounded :
   exists c, Curve.curve_L1 lm Curve.bezier_fuel mode pts e = Done c.
 Proof. exact BezierIEEECurve.curve_L1_bounded. Qed.
 Print Assumptions C01_T01g_curve_bounded.
+
+(* ------------------------------------------------------------------ *)
+(* LAYERS (1+)2+3, "hang", for whole files                              *)
+(* The fuel-bearing loops on the decode path, and where each is closed: *)
+(*   reader: read_until / read_exact / read_bom / read_extra /           *)
+(*     read_line_loop / lines_loop -- a value or an Err, never out of     *)
+(*     fuel, for every reader state (C08_total =                          *)
+(*     ReaderFacts.read_all_lines_ok; [C01_read_line_loop_total]; a       *)
+(*     value for every faultless schedule,                                *)
+(*     [C01_faultless_reader_never_fails]); the UTF-8 lossy loop          *)
+(*     (EncodingFacts.decode_utf8_lossy_spec, used by those);             *)
+(*   framing: the outer `loop` of decode ([C01_framing_fuel]);            *)
+(*   hit-object line: the two index loops of convert_path_str /           *)
+(*     convert_points (fuel = length + 1; [C01_no_panic_hit_object_line]  *)
+(*     returns Done for every state and line);                            *)
+(*   binary searches of ControlPoints (bs_loop: fuel = length, returns    *)
+(*     an index in every case; C13); replace_sub_aux (Text.v) and         *)
+(*     ndigits_aux (Num.v) likewise return plain values;                  *)
+(*   curve: the theta loop ([C01_theta_loop_terminates], under            *)
+(*     [atan2_in_range]) and the Bezier subdivision -- the only one left  *)
+(*     ([C01_curve_fails_only_in_bezier], [C01_decode_never_panics]).     *)
+(* So a decode returns a value as soon as every slider curve it computes  *)
+(* is inside [C01_T01g_curve_bounded].  That is a fact about the PARSER:  *)
+
+From RM Require Proofs.DecodeTerminatesPoints Proofs.DecodeTerminates Proofs.DecodeTerminatesLines
+     Proofs.DecodeTerminatesExamples.
+
+Example pin_max_coordinate_value : max_coordinate_value = 131072.
+Proof. reflexivity. Qed.
+
+(* the hit objects the parsers have collected after a list of lines (the
+   state the finishing conversion starts from) *)
+Example C01_parsed_means :
+  forall lines,
+  DecodeTerminates.ho_parsed lines =
+    match state_after (fun _ => Done hod_create) ho_parsers lines with
+    | Done s => hod_objects s | _ => [] end /\
+  DecodeTerminates.bm_parsed lines =
+    match state_after (fun v => Done (bmd_create v)) bm_parsers lines with
+    | Done s => hod_objects (bmd_ho s) | _ => [] end /\
+  (forall dist_of,
+     decode_hit_objects dist_of lines
+       = obind (state_after (fun _ => Done hod_create) ho_parsers lines) (hod_finish dist_of) /\
+     decode_beatmap dist_of lines
+       = obind (state_after (fun v => Done (bmd_create v)) bm_parsers lines) (bmd_finish dist_of)).
+Proof.
+  intros lines. split; [reflexivity|]. split; [reflexivity|]. intros dist_of.
+  exact (conj (DecodeTerminates.decode_hit_objects_state dist_of lines)
+              (DecodeTerminates.decode_beatmap_state dist_of lines)).
+Qed.
+
+(* PARSER BOUND.  After ANY list of lines (rejected and malformed lines
+   included), every control point of every slider the parsers hold is finite
+   and within +-2^18 = 2 * MAX_COORDINATE_VALUE in both coordinates: the head
+   and the absolute point are integers within +-131072, their binary32
+   difference is exact.  ([obj_points_ok E h]: every control point of a slider
+   h is [BezierIEEE.point_ok E] after the conversion to the curve's points.) *)
+Theorem C01_parsed_control_points_bounded :
+  forall lines,
+  Forall (DecodeTerminates.obj_points_ok 18) (DecodeTerminates.ho_parsed lines) /\
+  Forall (DecodeTerminates.obj_points_ok 18) (DecodeTerminates.bm_parsed lines).
+Proof. exact DecodeTerminates.parsed_points_ok. Qed.
+Print Assumptions C01_parsed_control_points_bounded.
+
+Example C01_obj_points_ok_means :
+  forall E h,
+  DecodeTerminates.obj_points_ok E h =
+  match h_kind h with
+  | KSlider s => Forall (fun p => BezierIEEE.point_ok E (conv_pos (cp_pos p))) (sl_control_points s)
+  | _ => True
+  end.
+Proof. reflexivity. Qed.
+
+(* ... and it is carried through the finishing conversion (stable sort, break
+   pass, per-object loop): the same of every decoded value, for any [dist_of] *)
+Theorem C01_decoded_control_points_bounded :
+  forall dist_of lines,
+  (forall hv, decode_hit_objects dist_of lines = Done hv ->
+     Forall (DecodeTerminates.obj_points_ok 18) (hov_hit_objects hv)) /\
+  (forall bv, decode_beatmap dist_of lines = Done bv ->
+     Forall (DecodeTerminates.obj_points_ok 18) (hov_hit_objects (bmv_ho bv))).
+Proof.
+  intros dist_of lines.
+  exact (conj (DecodeTerminates.decoded_points_ok_hit_objects dist_of lines)
+              (DecodeTerminates.decoded_points_ok_beatmap dist_of lines)).
+Qed.
+Print Assumptions C01_decoded_control_points_bounded.
+
+(* the conditions on a slider of the parser state are booleans; as propositions: *)
+Example C01_obj_cps_le_means :
+  forall n h,
+  DecodeTerminates.obj_cps_le n h = true <->
+  match h_kind h with KSlider s => (length (sl_control_points s) <= n)%nat | _ => True end.
+Proof. exact DecodeTerminates.obj_cps_le_spec. Qed.
+
+Example C01_obj_fits_means :
+  forall h,
+  DecodeTerminates.obj_fits_some h = true <->
+  exists E,
+  match h_kind h with
+  | KSlider s =>
+      0 <= E <= 22 /\ Z.of_nat (length (sl_control_points s)) * 2 ^ E <= 2 ^ 22 /\
+      Forall (fun p => Z.abs (f32_as_i32 (px (cp_pos p))) <= 2 ^ E /\
+                       Z.abs (f32_as_i32 (py (cp_pos p))) <= 2 ^ E) (sl_control_points s)
+  | _ => True
+  end.
+Proof.
+  intros h. rewrite DecodeTerminates.obj_fits_some_spec.
+  split; intros (E & H); exists E; apply DecodeTerminates.obj_fits_spec; exact H.
+Qed.
+
+(* DECODE TERMINATES (never OutOfFuel, never Panic, with the pinned fuels):
+   every list of lines in which every parsed slider has at most 16 control
+   points -- anywhere in the parser's coordinate range -- decodes to a value,
+   for both decoders that compute curves, for every libm record whose atan2
+   has its values in [-PI, PI] (or NaN). *)
+Theorem C01_decode_terminates_bounded :
+  forall lm, ThetaLoop.atan2_in_range lm -> forall lines,
+  (Forall (fun h => DecodeTerminates.obj_cps_le 16 h = true) (DecodeTerminates.ho_parsed lines) ->
+   exists hv, decode_hit_objects (dist_of_curve lm) lines = Done hv) /\
+  (Forall (fun h => DecodeTerminates.obj_cps_le 16 h = true) (DecodeTerminates.bm_parsed lines) ->
+   exists bv, decode_beatmap (dist_of_curve lm) lines = Done bv).
+Proof. exact DecodeTerminates.decode_terminates_bounded. Qed.
+Print Assumptions C01_decode_terminates_bounded.
+
+(* graded: n control points inside +-2^E of the slider head, n * 2^E <= 2^22
+   (<= 16384 within +-256, <= 1024 within +-4096, <= 64 within +-65536 ...),
+   E chosen per slider; the coordinates are read off the state *)
+Theorem C01_decode_terminates_graded :
+  forall lm, ThetaLoop.atan2_in_range lm -> forall lines,
+  (Forall (fun h => DecodeTerminates.obj_fits_some h = true) (DecodeTerminates.ho_parsed lines) ->
+   exists hv, decode_hit_objects (dist_of_curve lm) lines = Done hv) /\
+  (Forall (fun h => DecodeTerminates.obj_fits_some h = true) (DecodeTerminates.bm_parsed lines) ->
+   exists bv, decode_beatmap (dist_of_curve lm) lines = Done bv).
+Proof. exact DecodeTerminates.decode_terminates_graded. Qed.
+Print Assumptions C01_decode_terminates_graded.
+
+(* the same as a DECIDABLE CONDITION ON THE INPUT: a slider has at most as
+   many control points as its path field has `|`-separated pieces, so it is
+   enough that the sixth comma-separated field of every line of the file has at
+   most 16 pieces ([lines_fit 16]; lines of other sections and rejected lines
+   included -- a sufficient condition, checked without parsing a number) *)
+Example C01_lines_fit_means :
+  forall n lines,
+  DecodeTerminatesLines.lines_fit n lines =
+  forallb (fun line =>
+    Nat.leb (length (split_on 124 (odflt [] (nth_error (skipn 5 (split_on 44 (trim_comment line))) 0)))) n)
+    lines.
+Proof. reflexivity. Qed.
+
+Theorem C01_parsed_control_point_count :
+  forall n lines, DecodeTerminatesLines.lines_fit n lines = true ->
+  Forall (fun h => DecodeTerminates.obj_cps_le n h = true) (DecodeTerminates.ho_parsed lines) /\
+  Forall (fun h => DecodeTerminates.obj_cps_le n h = true) (DecodeTerminates.bm_parsed lines).
+Proof. exact DecodeTerminatesLines.parsed_cps_le. Qed.
+Print Assumptions C01_parsed_control_point_count.
+
+Theorem C01_decode_terminates_bounded_lines :
+  forall lm, ThetaLoop.atan2_in_range lm -> forall lines, DecodeTerminatesLines.lines_fit 16 lines = true ->
+  (exists hv, decode_hit_objects (dist_of_curve lm) lines = Done hv) /\
+  (exists bv, decode_beatmap (dist_of_curve lm) lines = Done bv).
+Proof. exact DecodeTerminatesLines.decode_terminates_lines. Qed.
+Print Assumptions C01_decode_terminates_bounded_lines.
+
+(* with LAYER 1: every reader state (bytes, buffered part, schedule of chunks
+   / Interrupted / failures) that delivers such lines, and from_bytes on an
+   in-memory buffer (whose lines are those the bytes determine,
+   [C01_from_bytes_lines]): a value -- no Err, no panic, not out of fuel *)
+Theorem C01_decode_reader_terminates_bounded :
+  forall lm, ThetaLoop.atan2_in_range lm -> forall r lines,
+  read_all_lines r = IoDone lines -> DecodeTerminatesLines.lines_fit 16 lines = true ->
+  (exists v, io_bind (read_all_lines r)
+               (fun ls => io_of_outcome (decode_hit_objects (dist_of_curve lm) ls)) = IoDone v) /\
+  (exists v, io_bind (read_all_lines r)
+               (fun ls => io_of_outcome (decode_beatmap (dist_of_curve lm) ls)) = IoDone v).
+Proof. exact DecodeTerminatesLines.decode_reader_terminates_lines. Qed.
+Print Assumptions C01_decode_reader_terminates_bounded.
+
+Theorem C01_decode_bytes_terminates_bounded :
+  forall lm (b : bytes), ThetaLoop.atan2_in_range lm ->
+  exists lines, read_all_lines (mk_reader b []) = IoDone lines /\
+  (DecodeTerminatesLines.lines_fit 16 lines = true ->
+   (exists v, decode_bytes_hit_objects (dist_of_curve lm) b = IoDone v) /\
+   (exists v, decode_bytes_beatmap (dist_of_curve lm) b = IoDone v)) /\
+  (Forall (fun h => DecodeTerminates.obj_fits_some h = true) (DecodeTerminates.bm_parsed lines) ->
+   exists v, decode_bytes_beatmap (dist_of_curve lm) b = IoDone v) /\
+  (Forall (fun h => DecodeTerminates.obj_fits_some h = true) (DecodeTerminates.ho_parsed lines) ->
+   exists v, decode_bytes_hit_objects (dist_of_curve lm) b = IoDone v).
+Proof.
+  intros lm b Hlm.
+  destruct (DecodeTerminatesLines.decode_bytes_terminates_lines lm Hlm b) as (lines & E & H).
+  destruct (DecodeTerminates.decode_bytes_fits lm Hlm b) as (lines' & E' & H').
+  rewrite E in E'. injection E' as <-. exists lines. exact (conj E (conj H H')).
+Qed.
+Print Assumptions C01_decode_bytes_terminates_bounded.
+
+(* not vacuous, at the limits.  A file with the slider line
+     -131072,-131072,0,2,0,B|131072:131072|-131072:131072|131072:-131072|...(15 points),1,100
+   -- head at the coordinate limit, 16 control points, the farthest exactly
+   2^18 from the head in both coordinates -- satisfies the input condition and
+   the state condition (E = 18, no smaller E), so it decodes to a value for
+   every libm with atan2 in range; also as bytes through the reader *)
+Example C01_decode_terminates_example_16 :
+  DecodeTerminatesLines.lines_fit 16 DecodeTerminatesExamples.ex16_lines = true /\
+  DecodeTerminatesLines.lines_fit 15 DecodeTerminatesExamples.ex16_lines = false /\
+  DecodeTerminatesExamples.parsed_coords (DecodeTerminates.bm_parsed DecodeTerminatesExamples.ex16_lines)
+  = [[(0, 0); (262144, 262144); (0, 262144); (262144, 0); (262144, 262144); (0, 262144); (262144, 0);
+      (262144, 262144); (0, 262144); (262144, 0); (262144, 262144); (0, 262144); (262144, 0);
+      (262144, 262144); (0, 262144); (262144, 0)]] /\
+  map (DecodeTerminates.obj_cps_le 16) (DecodeTerminates.bm_parsed DecodeTerminatesExamples.ex16_lines) = [true] /\
+  map (DecodeTerminates.obj_fits 18) (DecodeTerminates.bm_parsed DecodeTerminatesExamples.ex16_lines) = [true] /\
+  map (DecodeTerminates.obj_fits 17) (DecodeTerminates.bm_parsed DecodeTerminatesExamples.ex16_lines) = [false] /\
+  read_all_lines (mk_reader DecodeTerminatesExamples.ex16_bytes []) = IoDone DecodeTerminatesExamples.ex16_lines /\
+  (forall lm, ThetaLoop.atan2_in_range lm ->
+     (exists hv, decode_hit_objects (dist_of_curve lm) DecodeTerminatesExamples.ex16_lines = Done hv) /\
+     (exists bv, decode_beatmap (dist_of_curve lm) DecodeTerminatesExamples.ex16_lines = Done bv) /\
+     (exists v, decode_bytes_beatmap (dist_of_curve lm) DecodeTerminatesExamples.ex16_bytes = IoDone v)).
+Proof.
+  destruct DecodeTerminatesExamples.ex16_lines_fit as [L16 L15].
+  destruct DecodeTerminatesExamples.ex16_parsed as (P1 & P2 & _ & P4 & P5 & _).
+  repeat (split; [assumption|]). split; [exact DecodeTerminatesExamples.ex16_bytes_lines|].
+  intros lm Hlm. destruct (DecodeTerminatesExamples.ex16_decodes lm Hlm) as [H1 H2].
+  destruct (DecodeTerminatesExamples.ex16_bytes_decode lm Hlm) as [_ H3].
+  exact (conj H1 (conj H2 H3)).
+Qed.
+
+(* a slider of 24 control points inside +-4096 of its head: outside the
+   16-point rule, inside the graded one (24 * 2^12 <= 2^22) *)
+Example C01_decode_terminates_example_graded :
+  map (DecodeTerminates.obj_cps_le 16) (DecodeTerminates.bm_parsed DecodeTerminatesExamples.ex24_lines) = [false] /\
+  map (DecodeTerminates.obj_fits 12) (DecodeTerminates.bm_parsed DecodeTerminatesExamples.ex24_lines) = [true] /\
+  map DecodeTerminates.obj_fits_some (DecodeTerminates.bm_parsed DecodeTerminatesExamples.ex24_lines) = [true] /\
+  (forall lm, ThetaLoop.atan2_in_range lm ->
+     (exists hv, decode_hit_objects (dist_of_curve lm) DecodeTerminatesExamples.ex24_lines = Done hv) /\
+     (exists bv, decode_beatmap (dist_of_curve lm) DecodeTerminatesExamples.ex24_lines = Done bv)).
+Proof.
+  destruct DecodeTerminatesExamples.ex24_parsed as (_ & _ & P3 & P4 & _ & P6 & _).
+  repeat (split; [assumption|]). exact DecodeTerminatesExamples.ex24_decodes.
+Qed.
+
+(* PER SEGMENT.  calculate_path hands the Bezier routine one segment at a
+   time: the control points from one typed point to the next, both included
+   ([untyped_between]: no typed point strictly between the two indices is the
+   loop invariant).  So the count may be taken per segment, each with an E of
+   its own: *)
+From RM Require Model.HitObjectSpec Proofs.DecodeTerminatesSegLoop Proofs.DecodeTerminatesSegments
+     Proofs.DecodeTerminatesSegLines.
+
+Theorem C01_T01g_curve_bounded_segments :
+  forall lm mode pts e,
+  ThetaLoop.atan2_in_range lm ->
+  (forall start i, (start <= i < length pts)%nat ->
+     DecodeTerminatesSegLoop.untyped_between pts start i ->
+     exists E, 0 <= E /\
+       Forall (BezierIEEE.point_ok E) (firstn (S i - start) (skipn start (map Curve.pc_pos pts))) /\
+       Z.of_nat (length (firstn (S i - start) (skipn start (map Curve.pc_pos pts)))) * 2 ^ E <= 2 ^ 22) ->
+  exists c, Curve.curve_L1 lm Curve.bezier_fuel mode pts e = Done c.
+Proof. exact DecodeTerminatesSegLoop.curve_L1_bounded_seg. Qed.
+Print Assumptions C01_T01g_curve_bounded_segments.
+
+(* [max_seg_len cps]: the longest run of untyped control points strictly inside
+   the list plus its two end points, never more than the whole list -- a bound
+   on every slice the curve can take *)
+Example C01_max_seg_len_means :
+  (forall cps, DecodeTerminatesSegments.max_seg_len cps
+     = Nat.min (length cps) (DecodeTerminatesSegments.max_untyped_run (removelast cps) + 2)) /\
+  (forall l a b, (a <= b <= length l)%nat ->
+     (forall j, (a <= j < b)%nat -> exists p, nth_error l j = Some p /\ cp_type p = None) ->
+     (b - a <= DecodeTerminatesSegments.max_untyped_run l)%nat) /\
+  (forall cps start i, (start <= i < length cps)%nat ->
+     DecodeTerminatesSegLoop.untyped_between (map conv_pcp cps) start i ->
+     (S i - start <= DecodeTerminatesSegments.max_seg_len cps)%nat) /\
+  (forall cps, (DecodeTerminatesSegments.max_seg_len cps <= length cps)%nat).
+Proof.
+  split; [reflexivity|]. split; [|split].
+  - intros l a b Hab Hb. exact (proj1 (DecodeTerminatesSegments.run_scan_block l 0 0 a b Hab Hb)).
+  - exact DecodeTerminatesSegments.seg_slice_length.
+  - exact DecodeTerminatesSegments.max_seg_len_le.
+Qed.
+
+Example C01_obj_seg_means :
+  (forall n h,
+     DecodeTerminatesSegments.obj_seg_le n h = true <->
+     match h_kind h with
+     | KSlider s => (DecodeTerminatesSegments.max_seg_len (sl_control_points s) <= n)%nat
+     | _ => True end) /\
+  (forall h,
+     DecodeTerminatesSegments.obj_seg_fits_some h = true <->
+     exists E,
+     match h_kind h with
+     | KSlider s =>
+         0 <= E <= 22 /\
+         Z.of_nat (DecodeTerminatesSegments.max_seg_len (sl_control_points s)) * 2 ^ E <= 2 ^ 22 /\
+         Forall (fun p => Z.abs (f32_as_i32 (px (cp_pos p))) <= 2 ^ E /\
+                          Z.abs (f32_as_i32 (py (cp_pos p))) <= 2 ^ E) (sl_control_points s)
+     | _ => True
+     end) /\
+  (* the whole-slider conditions are special cases *)
+  (forall h, DecodeTerminates.obj_fits_some h = true -> DecodeTerminatesSegments.obj_seg_fits_some h = true).
+Proof.
+  split; [exact DecodeTerminatesSegments.obj_seg_le_spec|]. split.
+  - intros h. rewrite DecodeTerminatesSegments.obj_seg_fits_some_spec.
+    split; intros (E & H); exists E; apply DecodeTerminatesSegments.obj_seg_fits_spec; exact H.
+  - exact DecodeTerminatesSegments.obj_fits_some_seg.
+Qed.
+
+(* DECODE TERMINATES, per segment: at most 16 control points in every segment
+   of every parsed slider (any number of segments, anywhere in the parser's
+   range); graded: max_seg_len * 2^E <= 2^22 with the slider inside +-2^E *)
+Theorem C01_decode_terminates_segments :
+  forall lm, ThetaLoop.atan2_in_range lm -> forall lines,
+  (Forall (fun h => DecodeTerminatesSegments.obj_seg_le 16 h = true) (DecodeTerminates.ho_parsed lines) ->
+   exists hv, decode_hit_objects (dist_of_curve lm) lines = Done hv) /\
+  (Forall (fun h => DecodeTerminatesSegments.obj_seg_le 16 h = true) (DecodeTerminates.bm_parsed lines) ->
+   exists bv, decode_beatmap (dist_of_curve lm) lines = Done bv).
+Proof. exact DecodeTerminatesSegments.decode_terminates_segments. Qed.
+Print Assumptions C01_decode_terminates_segments.
+
+Theorem C01_decode_terminates_segments_graded :
+  forall lm, ThetaLoop.atan2_in_range lm -> forall lines,
+  (Forall (fun h => DecodeTerminatesSegments.obj_seg_fits_some h = true) (DecodeTerminates.ho_parsed lines) ->
+   exists hv, decode_hit_objects (dist_of_curve lm) lines = Done hv) /\
+  (Forall (fun h => DecodeTerminatesSegments.obj_seg_fits_some h = true) (DecodeTerminates.bm_parsed lines) ->
+   exists bv, decode_beatmap (dist_of_curve lm) lines = Done bv).
+Proof. exact DecodeTerminatesSegments.decode_terminates_segments_graded. Qed.
+Print Assumptions C01_decode_terminates_segments_graded.
+
+Theorem C01_decode_bytes_terminates_segments :
+  forall lm, ThetaLoop.atan2_in_range lm -> forall b : bytes,
+  exists lines, read_all_lines (mk_reader b []) = IoDone lines /\
+  (Forall (fun h => DecodeTerminatesSegments.obj_seg_fits_some h = true) (DecodeTerminates.bm_parsed lines) ->
+   exists v, decode_bytes_beatmap (dist_of_curve lm) b = IoDone v) /\
+  (Forall (fun h => DecodeTerminatesSegments.obj_seg_fits_some h = true) (DecodeTerminates.ho_parsed lines) ->
+   exists v, decode_bytes_hit_objects (dist_of_curve lm) b = IoDone v).
+Proof. exact DecodeTerminatesSegments.decode_bytes_segments. Qed.
+Print Assumptions C01_decode_bytes_terminates_segments.
+
+(* ... and as a decidable condition on the input: in the path field
+   `B|p|p|..|L|q|..` a piece that starts with an ASCII letter opens a segment;
+   the longest run of untyped control points is at most the longest run of
+   pieces that do not start with a letter ([max_piece_run]), whatever the
+   points are.  [lines_seg_fit]: the path field of every line has at most 16
+   pieces, or all its runs of point pieces are at most 14 long. *)
+Example C01_lines_seg_fit_means :
+  (forall lines,
+     DecodeTerminatesSegLines.lines_seg_fit lines =
+     forallb (fun line =>
+       let field := odflt [] (nth_error (skipn 5 (split_on 44 (trim_comment line))) 0) in
+       Nat.leb (length (split_on 124 field)) 16 ||
+       Nat.leb (DecodeTerminatesSegLines.max_piece_run field) 14) lines) /\
+  (forall s,
+     DecodeTerminatesSegLines.max_piece_run s =
+     match split_on 124 s with [] => 0%nat | _ :: rest => DecodeTerminatesSegLines.piece_runs 0 rest end) /\
+  (forall cur, DecodeTerminatesSegLines.piece_runs cur [] = cur) /\
+  (forall cur c t r,
+     DecodeTerminatesSegLines.piece_runs cur ((c :: t) :: r) =
+     if is_ascii_alpha c then Nat.max cur (DecodeTerminatesSegLines.piece_runs 0 r)
+     else DecodeTerminatesSegLines.piece_runs (S cur) r) /\
+  (forall lines, DecodeTerminatesLines.lines_fit 16 lines = true ->
+     DecodeTerminatesSegLines.lines_seg_fit lines = true).
+Proof.
+  split; [reflexivity|]. split; [reflexivity|]. split; [reflexivity|]. split; [reflexivity|].
+  exact DecodeTerminatesSegLines.lines_fit_seg_fit.
+Qed.
+
+(* what the path string gives, for every string and slider head *)
+Theorem C01_path_string_runs :
+  forall s offset a b,
+  (a <= b <= length (fst (HitObjectSpec.path_spec s offset)))%nat ->
+  (forall j, (a <= j < b)%nat ->
+     exists p, nth_error (fst (HitObjectSpec.path_spec s offset)) j = Some p /\ cp_type p = None) ->
+  (b - a <= DecodeTerminatesSegLines.max_piece_run s)%nat.
+Proof. exact DecodeTerminatesSegLines.path_spec_runs. Qed.
+Print Assumptions C01_path_string_runs.
+
+Theorem C01_decode_terminates_segments_lines :
+  forall lm, ThetaLoop.atan2_in_range lm -> forall lines,
+  DecodeTerminatesSegLines.lines_seg_fit lines = true ->
+  (exists hv, decode_hit_objects (dist_of_curve lm) lines = Done hv) /\
+  (exists bv, decode_beatmap (dist_of_curve lm) lines = Done bv).
+Proof. exact DecodeTerminatesSegLines.decode_terminates_seg_lines. Qed.
+Print Assumptions C01_decode_terminates_segments_lines.
+
+Theorem C01_decode_reader_terminates_segments_lines :
+  forall lm, ThetaLoop.atan2_in_range lm -> forall r lines,
+  read_all_lines r = IoDone lines -> DecodeTerminatesSegLines.lines_seg_fit lines = true ->
+  (exists v, io_bind (read_all_lines r)
+               (fun ls => io_of_outcome (decode_hit_objects (dist_of_curve lm) ls)) = IoDone v) /\
+  (exists v, io_bind (read_all_lines r)
+               (fun ls => io_of_outcome (decode_beatmap (dist_of_curve lm) ls)) = IoDone v).
+Proof. exact DecodeTerminatesSegLines.decode_reader_terminates_seg_lines. Qed.
+Print Assumptions C01_decode_reader_terminates_segments_lines.
+
+Theorem C01_decode_bytes_terminates_segments_lines :
+  forall lm, ThetaLoop.atan2_in_range lm -> forall b : bytes,
+  exists lines, read_all_lines (mk_reader b []) = IoDone lines /\
+  (DecodeTerminatesSegLines.lines_seg_fit lines = true ->
+   (exists v, decode_bytes_hit_objects (dist_of_curve lm) b = IoDone v) /\
+   (exists v, decode_bytes_beatmap (dist_of_curve lm) b = IoDone v)).
+Proof. exact DecodeTerminatesSegLines.decode_bytes_terminates_seg_lines. Qed.
+Print Assumptions C01_decode_bytes_terminates_segments_lines.
+
+(* not vacuous: a slider of three Bezier segments of 14 point pieces each, all
+   at the coordinate limits -- 43 control points, 16 in the longest segment:
+   outside every whole-slider rule (43 * 2^18 > 2^22), inside the per-segment
+   one, on the input and on the state *)
+Example C01_decode_terminates_example_segments :
+  DecodeTerminatesSegLines.lines_seg_fit DecodeTerminatesExamples.ex43_lines = true /\
+  DecodeTerminatesLines.lines_fit 16 DecodeTerminatesExamples.ex43_lines = false /\
+  map (fun x => (fst (fst x), snd (fst x)))
+      (DecodeTerminatesExamples.parsed_shape (DecodeTerminates.bm_parsed DecodeTerminatesExamples.ex43_lines))
+    = [(43%nat, 16%nat)] /\
+  map (DecodeTerminatesSegments.obj_seg_le 16) (DecodeTerminates.bm_parsed DecodeTerminatesExamples.ex43_lines) = [true] /\
+  map (DecodeTerminatesSegments.obj_seg_le 15) (DecodeTerminates.bm_parsed DecodeTerminatesExamples.ex43_lines) = [false] /\
+  map DecodeTerminates.obj_fits_some (DecodeTerminates.bm_parsed DecodeTerminatesExamples.ex43_lines) = [false] /\
+  (forall lm, ThetaLoop.atan2_in_range lm ->
+     (exists hv, decode_hit_objects (dist_of_curve lm) DecodeTerminatesExamples.ex43_lines = Done hv) /\
+     (exists bv, decode_beatmap (dist_of_curve lm) DecodeTerminatesExamples.ex43_lines = Done bv)).
+Proof.
+  destruct DecodeTerminatesExamples.ex43_lines_fit as [L1 L2].
+  destruct DecodeTerminatesExamples.ex43_parsed as (P1 & _ & P3 & P4 & _ & _ & P7 & _).
+  repeat (split; [assumption|]). exact DecodeTerminatesExamples.ex43_decodes.
+Qed.
+
+(* a slider line of a real map (resources/Within Temptation - The Unforgiving
+   (Armin) [Marathon].osu): one type letter, 59 point pieces, two doubled points
+   (red anchors) that split it into three segments -- 58 control points, 26 in
+   the longest segment, within +-256 of the head.  Outside the number-free input
+   condition (a run of 59 pieces), inside the graded per-segment one with a wide
+   margin (26 * 2^8 against 2^22).  The state-side conditions are booleans
+   computed from the input lines by the PARSER model alone (no curve), so they
+   too are decidable conditions on the input.  (All 2828 slider lines of the 44
+   .osu files under /repo/resources satisfy the graded per-segment condition,
+   the largest product being 58 * 2^10; counted outside Coq,
+   probes/C01_decode_cover.) *)
+Example C01_decode_terminates_example_real_line :
+  DecodeTerminatesSegLines.lines_seg_fit DecodeTerminatesExamples.ex_real_lines = false /\
+  map (fun x => (fst (fst x), snd (fst x)))
+      (DecodeTerminatesExamples.parsed_shape (DecodeTerminates.bm_parsed DecodeTerminatesExamples.ex_real_lines))
+    = [(58%nat, 26%nat)] /\
+  map (DecodeTerminatesSegments.obj_seg_fits 8) (DecodeTerminates.bm_parsed DecodeTerminatesExamples.ex_real_lines) = [true] /\
+  map (DecodeTerminatesSegments.obj_seg_fits 7) (DecodeTerminates.bm_parsed DecodeTerminatesExamples.ex_real_lines) = [false] /\
+  map DecodeTerminatesSegments.obj_seg_fits_some (DecodeTerminates.bm_parsed DecodeTerminatesExamples.ex_real_lines) = [true] /\
+  (forall lm, ThetaLoop.atan2_in_range lm ->
+     (exists hv, decode_hit_objects (dist_of_curve lm) DecodeTerminatesExamples.ex_real_lines = Done hv) /\
+     (exists bv, decode_beatmap (dist_of_curve lm) DecodeTerminatesExamples.ex_real_lines = Done bv)).
+Proof.
+  destruct DecodeTerminatesExamples.ex_real_parsed as (P1 & P2 & _ & P4 & P5 & P6 & _).
+  repeat (split; [assumption|]). exact DecodeTerminatesExamples.ex_real_decodes.
+Qed.
+
+(* the hypothesis on atan2 is satisfiable (and needed: [C01_theta_loop_hostile_atan2]) *)
+Example C01_atan2_in_range_inhabited :
+  ThetaLoop.atan2_in_range (Curve.mkLibm (fun x => x) (fun x => x) (fun _ _ => D.zero) (fun x => x)).
+Proof. exact ThetaLoop.atan2_in_range_inhabited. Qed.
 
 (* ------------------------------------------------------------------ *)
 (* LAYER 4: re-encoding                                                 *)
@@ -1447,6 +1936,65 @@ Theorem C01_encode_completes_taiko_mania :
   exists toks, encode_tokens (DrvEnc.dist_real lm) (events_with chk fuel tf) bv = Done toks.
 Proof. exact encode_completes_taiko_mania. Qed.
 Print Assumptions C01_encode_completes_taiko_mania.
+
+(* LAYERS 2+3+4, "hang": decode, then re-encode.  For every list of lines in
+   which every parsed slider has at most 16 control points (resp. fits, graded),
+   atan2 in range, encoder fuels above the bounds of
+   [C01_encode_never_out_of_fuel]: the decode returns a map, and the encoder
+   does not run out of fuel on it -- it returns its token stream, or panics
+   with the D18 panic inside the class of (4b). *)
+From RM Require Proofs.DecodeTerminatesEncode.
+
+Theorem C01_decode_encode_terminates_bounded :
+  forall lm, ThetaLoop.atan2_in_range lm ->
+  forall chk fuel tf lines,
+  Forall (fun h => DecodeTerminates.obj_cps_le 16 h = true) (DecodeTerminates.bm_parsed lines) ->
+  100000 * 2 ^ 25 + 1 < Z.of_nat tf -> 3 + 9000 * (100000 * 2 ^ 25 + 1) < Z.of_nat fuel ->
+  exists bv, decode_beatmap (dist_of_curve lm) lines = Done bv /\
+    encode_tokens (DrvEnc.dist_real lm) (events_with chk fuel tf) bv <> OutOfFuel /\
+    ((exists toks, encode_tokens (DrvEnc.dist_real lm) (events_with chk fuel tf) bv = Done toks) \/
+     (neg_dist_class lm bv = true /\
+      exists w, encode_tokens (DrvEnc.dist_real lm) (events_with chk fuel tf) bv = Panic w)).
+Proof. exact DecodeTerminatesEncode.decode_encode_16. Qed.
+Print Assumptions C01_decode_encode_terminates_bounded.
+
+Theorem C01_decode_encode_terminates_segments :
+  forall lm, ThetaLoop.atan2_in_range lm ->
+  forall chk fuel tf lines,
+  Forall (fun h => DecodeTerminatesSegments.obj_seg_fits_some h = true) (DecodeTerminates.bm_parsed lines) ->
+  100000 * 2 ^ 25 + 1 < Z.of_nat tf -> 3 + 9000 * (100000 * 2 ^ 25 + 1) < Z.of_nat fuel ->
+  exists bv, decode_beatmap (dist_of_curve lm) lines = Done bv /\
+    encode_tokens (DrvEnc.dist_real lm) (events_with chk fuel tf) bv <> OutOfFuel /\
+    ((exists toks, encode_tokens (DrvEnc.dist_real lm) (events_with chk fuel tf) bv = Done toks) \/
+     (neg_dist_class lm bv = true /\
+      exists w, encode_tokens (DrvEnc.dist_real lm) (events_with chk fuel tf) bv = Panic w)).
+Proof. exact DecodeTerminatesEncode.decode_encode_seg_fits. Qed.
+Print Assumptions C01_decode_encode_terminates_segments.
+
+Theorem C01_decode_encode_terminates_segments_lines :
+  forall lm, ThetaLoop.atan2_in_range lm ->
+  forall chk fuel tf lines,
+  DecodeTerminatesSegLines.lines_seg_fit lines = true ->
+  100000 * 2 ^ 25 + 1 < Z.of_nat tf -> 3 + 9000 * (100000 * 2 ^ 25 + 1) < Z.of_nat fuel ->
+  exists bv, decode_beatmap (dist_of_curve lm) lines = Done bv /\
+    encode_tokens (DrvEnc.dist_real lm) (events_with chk fuel tf) bv <> OutOfFuel /\
+    ((exists toks, encode_tokens (DrvEnc.dist_real lm) (events_with chk fuel tf) bv = Done toks) \/
+     (neg_dist_class lm bv = true /\
+      exists w, encode_tokens (DrvEnc.dist_real lm) (events_with chk fuel tf) bv = Panic w)).
+Proof. exact DecodeTerminatesEncode.decode_encode_seg_lines. Qed.
+Print Assumptions C01_decode_encode_terminates_segments_lines.
+
+Theorem C01_decode_encode_terminates_graded :
+  forall lm, ThetaLoop.atan2_in_range lm ->
+  forall chk fuel tf lines,
+  Forall (fun h => DecodeTerminates.obj_fits_some h = true) (DecodeTerminates.bm_parsed lines) ->
+  100000 * 2 ^ 25 + 1 < Z.of_nat tf -> 3 + 9000 * (100000 * 2 ^ 25 + 1) < Z.of_nat fuel ->
+  exists bv, decode_beatmap (dist_of_curve lm) lines = Done bv /\
+    ((exists toks, encode_tokens (DrvEnc.dist_real lm) (events_with chk fuel tf) bv = Done toks) \/
+     (neg_dist_class lm bv = true /\
+      exists w, encode_tokens (DrvEnc.dist_real lm) (events_with chk fuel tf) bv = Panic w)).
+Proof. exact DecodeTerminatesEncode.decode_encode_fits. Qed.
+Print Assumptions C01_decode_encode_terminates_graded.
 
 (* ---------- (4d) valid UTF-8 ---------- *)
 
